@@ -270,6 +270,8 @@ pub fn spec_c06() -> PropSpec {
             ]
         },
         nt_rule: "",
+        engine: "seq",
+        runner: None,
     }
 }
 
@@ -297,5 +299,7 @@ pub fn spec_c07() -> PropSpec {
             ]
         },
         nt_rule: "",
+        engine: "seq",
+        runner: None,
     }
 }
